@@ -17,13 +17,13 @@ pub const WS: [&str; 10] = [" ", "  ", "\t", "\n", "\r\n", "\u{a0}", "\u{2009}",
 
 pub fn raw_fillers(code: &str) -> &'static [&'static str] {
     match code {
-        "en" => &["cats", "dogs", "people", "houses", "green", "quickly", "table", "window", "river", "bought", "walked", "very", "apples", "between", "under", "garden"],
-        "fr" => &["chats", "maisons", "voiture", "vert", "rapidement", "table", "fenêtre", "rivière", "marché", "très", "pommes", "entre", "sous", "dans", "jardin", "chiens"],
-        "es" => &["gatos", "casas", "coche", "verde", "rápidamente", "mesa", "ventana", "río", "mercado", "muy", "manzanas", "entre", "bajo", "jardín", "perros", "libro"],
-        "pt" => &["gatos", "casas", "carro", "verde", "rapidamente", "mesa", "janela", "rio", "mercado", "muito", "maçãs", "entre", "sob", "jardim", "cães", "livro"],
-        "it" => &["gatti", "case", "macchina", "verde", "rapidamente", "tavolo", "finestra", "fiume", "mercato", "molto", "mele", "tra", "sotto", "giardino", "cani", "libro"],
-        "de" => &["Katzen", "Häuser", "Auto", "grün", "schnell", "Tisch", "Fenster", "Fluss", "Markt", "sehr", "Äpfel", "zwischen", "unter", "Garten", "Vögel", "Buch"],
-        "nl" => &["katten", "huizen", "auto", "groen", "snel", "tafel", "raam", "rivier", "markt", "erg", "appels", "tussen", "onder", "tuin", "honden", "boek"],
+        "en" => &["a", "an", "the", "of", "to", "it", "I", "cats", "dogs", "people", "houses", "green", "quickly", "table", "window", "river", "bought", "walked", "very", "apples", "between", "under", "garden"],
+        "fr" => &["la", "de", "à", "je", "il", "chats", "maisons", "voiture", "vert", "rapidement", "table", "fenêtre", "rivière", "marché", "très", "pommes", "entre", "sous", "dans", "jardin", "chiens"],
+        "es" => &["el", "la", "de", "a", "yo", "gatos", "casas", "coche", "verde", "rápidamente", "mesa", "ventana", "río", "mercado", "muy", "manzanas", "entre", "bajo", "jardín", "perros", "libro"],
+        "pt" => &["o", "a", "de", "eu", "para", "gatos", "casas", "carro", "verde", "rapidamente", "mesa", "janela", "rio", "mercado", "muito", "maçãs", "entre", "sob", "jardim", "cães", "livro"],
+        "it" => &["il", "la", "di", "a", "io", "gatti", "case", "macchina", "verde", "rapidamente", "tavolo", "finestra", "fiume", "mercato", "molto", "mele", "tra", "sotto", "giardino", "cani", "libro"],
+        "de" => &["der", "die", "das", "zu", "ich", "Katzen", "Häuser", "Auto", "grün", "schnell", "Tisch", "Fenster", "Fluss", "Markt", "sehr", "Äpfel", "zwischen", "unter", "Garten", "Vögel", "Buch"],
+        "nl" => &["de", "het", "van", "te", "ik", "katten", "huizen", "auto", "groen", "snel", "tafel", "raam", "rivier", "markt", "erg", "appels", "tussen", "onder", "tuin", "honden", "boek"],
         _ => &[],
     }
 }
